@@ -30,6 +30,14 @@ ASSUMPTIONS = ["sklearn DBSCAN(min_samples=1) yields the connected "
                "components of the eps-neighbourhood graph (no noise points)"]
 
 MUTANTS = [
+    ("singleton groups keep their old component number",
+     "AegeanTools/cluster.py",
+     "    for isle, group in enumerate(groups):\n",
+     "    for isle, group in enumerate(groups):\n"
+     "        if len(group) == 1:\n"
+     "            group[0].island = isle\n"
+     "            islands.append(group)\n"
+     "            continue\n", "C19-R2"),
     ("ratio 1 rescales sources with unknown psf", "AegeanTools/cluster.py",
      "            if ratio != 1:\n", "            if ratio != 0:\n",
      "C19-R7"),
@@ -236,6 +244,33 @@ def run(ctx):
                   "expected for isle, group in enumerate(groups): for comp, "
                   "src in enumerate(sorted(group, key=...)): src.island = "
                   "isle; src.source = comp", node=o)
+        # both labels are written wherever one is: a path that assigns the
+        # island number without the component number leaves a stale one
+        def blocks(stmts):
+            yield stmts
+            for st in stmts:
+                for fld in ("body", "orelse", "finalbody"):
+                    sub = getattr(st, fld, None)
+                    if isinstance(sub, list) and sub and \
+                            isinstance(sub[0], ast.stmt):
+                        yield from blocks(sub)
+        for blk in blocks(o.body):
+            isl_st = [st for st in blk if isinstance(st, ast.Assign)
+                      and isinstance(st.targets[0], ast.Attribute)
+                      and st.targets[0].attr == "island"]
+            for st in isl_st:
+                obj = norm(st.targets[0].value)
+                paired = any(isinstance(x, ast.Assign) and
+                             isinstance(x.targets[0], ast.Attribute) and
+                             x.targets[0].attr == "source" and
+                             norm(x.targets[0].value) == obj for x in blk)
+                ctx.check("C19-R2", fi, "island and source written "
+                          "together: " + norm(st, 50), paired,
+                          "`%s` sets the island number on a path that does "
+                          "not set the component number of the same source: "
+                          "a source that is alone in its new group keeps the "
+                          "component number it had before (numbering is not "
+                          "0..n-1)" % norm(st, 50), node=st)
         ctx.check("C19-R2", fi, "flux ordering key", key_ok,
                   "within a group sources must be numbered by decreasing "
                   "peak flux", node=o)
